@@ -4,12 +4,16 @@ import itertools
 from harness.runner import BCheck
 
 LEVEL = "proof"
-LEVEL_TEXT = ("Every method of ComponentFinder (graph.py) is verified for all inputs against representation invariant + whole-view postconditions "
-              "(obligations from the real source, discharged by z3/cvc5 on every run); the history statement is a lemma over those contracts. "
-              "priorityqueue.pyx is covered by the bounded stand-in (all admissible histories up to length 5/6 against an abstract model) until its "
-              "Cython obligations are in place; the evidence of each run states what was discharged.")
-LEVEL_NOTE = ("Trusted: z3/cvc5, vcgen's semantics of the Python subset, integer model of the generic value type, ComponentFinder.__init__ "
-              "(bounded only). Evidence level drops to 'other' in any run where an expected obligation is not discharged.")
+LEVEL_TEXT = ("Deductive, all inputs and all histories: every method of ComponentFinder (graph.py: __init__, _find_node, merge, find) and every operation of the "
+              "priority queue (priorityqueue.pyx, read through Cython's parser: _vector_score_lower, index helpers, _score_lower, _swap, _sift_up, _sift_down with "
+              "termination measures, c_push, c_pop, c_change_score, c_get_score_by_item, size, c_is_empty, is_empty) is verified against a data-structure "
+              "contract - representation invariant + whole abstract view (item -> score map; representative = minimum of the class) - with obligations generated "
+              "from the real source and discharged by z3/cvc5 on every run; the history statements (pops are non-increasing, the view is the least equivalence "
+              "with minimum representatives, the lexicographic order is a strict weak order) are lemmas over those contracts. Bounded stand-in (redundant when all "
+              "obligations discharge): the compiled queue and the finder against executable abstract models on all admissible histories up to length 5/6.")
+LEVEL_NOTE = ("Trusted: z3/cvc5, vcgen's semantics of the Python/Cython subset (cross-checked against CPython for the Python part), integer model of the generic value "
+              "type, the meta-level induction principle behind two lemma pairs. The Python-level wrappers push/pop/change_score (_pyscore_to_vector, new/del) are "
+              "bounded only. Evidence level drops to 'other' in any run where an expected obligation is not discharged.")
 TECHNIQUE = "contract-based deductive verification (sidecar contracts, own VC generator over python ast, z3/cvc5) + bounded model-based runtime contracts"
 D_MODULES = ["contracts.graph_py", "contracts.priorityqueue_pyx"]
 EXPLANATION = (
@@ -27,7 +31,8 @@ TRUSTED_BASE = [
     "C int indices treated as mathematical integers with an explicit range obligation",
 ]
 ASSUMPTIONS = [
-    "ComponentFinder.__init__ (dict comprehension allocating one Node per value) is not verified deductively; WF after construction is covered by the bounded check",
+    "induction principle (meta-level) for the lemma pairs root-is-maximum and first-difference/trichotomy",
+    "push/pop/change_score Python wrappers of the queue are covered by the bounded check only",
 ]
 
 
